@@ -1086,18 +1086,26 @@ func (c *Client) findNewPrimary(ctx context.Context, height int64, remove bool) 
 				c.witnesses = append(c.witnesses, c.primary)
 			}
 
-			// promote respondent as the new primary
-			c.logger.Debug("found new primary", "primary", c.witnesses[response.witnessIndex])
-			c.primary = c.witnesses[response.witnessIndex]
+			newPrimary := c.witnesses[response.witnessIndex]
 
 			// add promoted witness to the list of witnesses to be removed
 			witnessesToRemove = append(witnessesToRemove, response.witnessIndex)
 
 			// remove witnesses marked as bad (the client must do this before we alter the witness slice and change the indexes
-			// of witnesses). Removal is done in descending order
+			// of witnesses). Removal is done in descending order. If that would leave the client without any witness
+			// the respondent is not promoted: it would otherwise stay in the witness list and, from then on, every
+			// header it provides as the primary would be cross-checked against itself.
 			if err := c.removeWitnesses(witnessesToRemove); err != nil {
+				if !remove {
+					// undo the demotion of the old primary
+					c.witnesses = c.witnesses[:len(c.witnesses)-1]
+				}
 				return nil, err
 			}
+
+			// promote respondent as the new primary
+			c.logger.Debug("found new primary", "primary", newPrimary)
+			c.primary = newPrimary
 
 			// return the light block that new primary responded with
 			return response.lb, nil
